@@ -169,6 +169,12 @@ func (w *World) GenFunction(fn *ssa.Function, c *Contract) (*VC, []string) {
 		globals: map[*types.Var]string{}, safety: map[string]bool{"index": true, "slice": true, "div": true, "nilmap": true, "explicit": true}}
 	g.vc = NewVC(key)
 	g.model = &Model{vc: g.vc}
+	for fk, ann := range w.specs.FieldAnn {
+		if ann["const"] != "" {
+			i := lastDot(fk)
+			g.vc.constVars[fieldVar(fk[:i], fk[i+1:])] = true
+		}
+	}
 	if c == nil {
 		c = &Contract{Key: key, Loops: map[int]*LoopSpec{}, Flags: map[string]string{}, ParamSpecs: map[string]string{}}
 		g.contract = c
@@ -397,7 +403,83 @@ func (g *Gen) localByName(name string, at *ssa.BasicBlock, h *Heap) (Val, bool) 
 	return Val{}, false
 }
 
+// constCapture: the captured variable is assigned exactly once (the spill of a parameter or a single
+// initialisation in the enclosing function) and never inside this closure: its cell is a constant.
+func (g *Gen) constCapture(fv *ssa.FreeVar) bool {
+	fn := g.fn
+	idx := -1
+	for i, f := range fn.FreeVars {
+		if f == fv {
+			idx = i
+		}
+	}
+	if idx < 0 || fn.Parent() == nil {
+		return false
+	}
+	stores := func(f *ssa.Function, isTarget func(ssa.Value) bool) int {
+		n := 0
+		for _, b := range f.Blocks {
+			for _, in := range b.Instrs {
+				if st, ok := in.(*ssa.Store); ok && isTarget(st.Addr) {
+					n++
+				}
+			}
+		}
+		return n
+	}
+	if stores(fn, func(v ssa.Value) bool { return v == ssa.Value(fv) }) > 0 {
+		return false
+	}
+	// find the binding in the parent
+	var cell ssa.Value
+	for _, b := range fn.Parent().Blocks {
+		for _, in := range b.Instrs {
+			if mc, ok := in.(*ssa.MakeClosure); ok && mc.Fn == ssa.Value(fn) && idx < len(mc.Bindings) {
+				cell = mc.Bindings[idx]
+			}
+		}
+	}
+	if cell == nil {
+		return false
+	}
+	if _, isAlloc := cell.(*ssa.Alloc); !isAlloc {
+		return false
+	}
+	if stores(fn.Parent(), func(v ssa.Value) bool { return v == cell }) > 1 {
+		return false
+	}
+	// other closures sharing the cell must not store to it either
+	for _, an := range fn.Parent().AnonFuncs {
+		if an == fn {
+			continue
+		}
+		for i, f := range an.FreeVars {
+			_ = i
+			if f.Name() == fv.Name() && stores(an, func(v ssa.Value) bool { return v == ssa.Value(f) }) > 0 {
+				return false
+			}
+		}
+	}
+	return true
+}
+
+func (g *Gen) constCaptureVal(fv *ssa.FreeVar, pt types.Type) string {
+	sym := "cap." + mangle(fv.Name())
+	if !g.vc.declSet[sym] {
+		g.vc.Declare(sym, nil, sortOf(pt))
+		arr := g.entry.Get(cellVar(pt), ArrSort(SInt, sortOf(pt)))
+		g.vc.Def(Eq(sym, Sel(arr, g.val(fv))))
+		if isRefLike(pt) {
+			g.vc.Def(g.model.allocatedBefore(sym, g.model.allocNow(g.entry)))
+		}
+	}
+	return sym
+}
+
 func (g *Gen) loadThrough(h *Heap, ptr ssa.Value, pt types.Type) Val {
+	if fv, ok := ptr.(*ssa.FreeVar); ok && !isStruct(pt) && g.constCapture(fv) {
+		return Val{T: g.constCaptureVal(fv, pt), Ty: pt}
+	}
 	if isStruct(pt) {
 		return Val{T: g.val(ptr), Ty: pt, Addr: true}
 	}
